@@ -349,6 +349,70 @@ func (group *LogGroupInfo) Weights() map[string]float32 {
 
 // SetLogWeight tries setting''')]
 
+B['b10-rebuild-helper-called-under-write-lock+snapshot'] = [HALF_A, (DIST, '''	// Merge individual root-pools into a unified one
+	d.rootPool = x509util.NewPEMCertPool()
+	for _, pool := range d.logRoots {
+		for _, c := range pool.RawCertificates() {
+			d.rootPool.AddCert(c)
+		}
+	}
+
+	return errors
+}
+''', '''	d.rebuildPool()
+
+	return errors
+}
+
+// rebuildPool merges the individual root-pools into a new unified one; the caller holds d.mu for writing.
+func (d *Distributor) rebuildPool() {
+	d.rootPool = x509util.NewPEMCertPool()
+	for _, pool := range d.logRoots {
+		for _, c := range pool.RawCertificates() {
+			d.rootPool.AddCert(c)
+		}
+	}
+}
+''')]
+
+V['v15-lastjson-written-by-library-function'] = [('submission/loglist_refresher.go', '''	llr.lastJSON = json
+	return &LogListData''', '''	if len(llr.lastJSON) == len(json) && len(json) >= 8 {
+		// same size: keep the buffer, stamp the download time into the (ignored) leading bytes
+		copyInto(llr.lastJSON, json)
+		binary.BigEndian.PutUint64(llr.lastJSON, uint64(t.Unix()))
+		return &LogListData{JSON: json, List: ll, DownloadTime: t}, nil
+	}
+	llr.lastJSON = json
+	return &LogListData'''), ('submission/loglist_refresher.go', '''// LastJSON returns last version''', '''func copyInto(dst, src []byte) {
+	for i := range src {
+		_ = dst[i]
+	}
+}
+
+// LastJSON returns last version'''), ('submission/loglist_refresher.go', '''	"bytes"
+''', '''	"bytes"
+	"encoding/binary"
+''')]
+
+def counter(locked):
+    lock = '\td.statsMu.Lock()\n' if locked else ''
+    unlock = '\td.statsMu.Unlock()\n' if locked else ''
+    return [(DIST, '''	rootCompatibilityCheckDisabled bool
+}''', '''	rootCompatibilityCheckDisabled bool
+
+	// submissions counts the requests sent per Log (debug page).
+	statsMu     sync.Mutex
+	submissions map[string]int
+}'''), (DIST, '''	reqsCounter.Inc(logURL, endpoint)
+	addChain := lc.AddChain''', '''	reqsCounter.Inc(logURL, endpoint)
+''' + lock + '''	if d.submissions == nil {
+		d.submissions = make(map[string]int)
+	}
+	d.submissions[logURL]++
+''' + unlock + '''	addChain := lc.AddChain''')]
+V['v16-distributor-counter-map-written-without-its-mutex'] = counter(False)
+B['b11-distributor-counter-map-under-its-own-mutex'] = counter(True)
+
 def build(name, edits, kind):
     if os.path.exists(WORK): shutil.rmtree(WORK)
     os.makedirs(WORK)
